@@ -1,6 +1,7 @@
 package request
 
 import (
+	"encoding/hex"
 	"strings"
 
 	"github.com/vipnode/vipnode/v2/internal/verifapi"
@@ -24,7 +25,18 @@ func VerifC04Hash() {
 	nonce := verifapi.Int64("nonce")
 	arg := verifArgs{Kind: "geth", Num: verifapi.Int64("num")}
 	extra := verifapi.Int64("extra")
-	sig, err := Sign(verifKey(id), method, id, nonce, arg, extra)
+	var sig string
+	var err error
+	if style == 1 {
+		// a wallet signature is R || S || V with recovery id V = 0 or 1 (fixed by key and message: both
+		// occur), which wallets also write as 27 / 28
+		sig, extra, err = verifSignV(verifKey(id), verifapi.Choose("recid", 2), method, id, nonce, arg, extra)
+		if err == nil && verifapi.Bool("legacy-recovery-byte") {
+			sig = verifLegacyV(sig)
+		}
+	} else {
+		sig, err = Sign(verifKey(id), method, id, nonce, arg, extra)
+	}
 	if err != nil {
 		verifapi.Unreachable("c04.sign-error")
 		return
@@ -36,7 +48,14 @@ func VerifC04Hash() {
 	}
 	verifapi.Assert(Verify(sig, method, id, nonce, arg, extra) == nil, "c04.hash.own-signature-verifies")
 	// each single alteration is refused
-	switch verifapi.Choose("alteration", 8) {
+	switch verifapi.Choose("alteration", 9) {
+	case 8: // not a signature at all: empty, too short, right length, too long, not hex / not base64
+		forged := []string{
+			"", "0x", "00", "zz", "AA==",
+			strings.Repeat("00", 64), strings.Repeat("00", 65), strings.Repeat("00", 66), "0x" + strings.Repeat("1b", 65),
+			strings.Repeat("A", 86) + "==", strings.Repeat("A", 87) + "=", strings.Repeat("A", 88),
+		}[verifapi.Choose("forged", 12)]
+		verifapi.Assert(Verify(forged, method, id, nonce, arg, extra) != nil, "c04.hash.arbitrary-string-is-not-a-signature")
 	case 0:
 		verifapi.Assert(Verify(sig, "vipnode_connect", id, nonce, arg, extra) != nil, "c04.hash.method-is-covered")
 	case 1:
@@ -107,4 +126,15 @@ func VerifC04Concurrent() {
 	e1, e2 := <-done, <-done
 	verifapi.Reach("c04.concurrent")
 	verifapi.Assert(e1 == nil && e2 == nil, "c04.concurrent.own-signature-verifies")
+}
+
+// verifLegacyV rewrites a wallet signature's recovery byte from 0/1 to 27/28.
+func verifLegacyV(sig string) string {
+	b, err := hex.DecodeString(sig)
+	if err != nil || len(b) != 65 {
+		verifapi.Unreachable("c04.legacy-form")
+		return sig
+	}
+	b[64] += 27
+	return hex.EncodeToString(b)
 }
